@@ -46,7 +46,7 @@ import (
 func init() {
 	h.Register(&h.Prop{
 		ID:   "C16",
-		Rule: "mitm: real node → byte-level proxy → real node, 1..12 messages of 4 types and sizes 1 B..~1 MiB, every catalogue entry (bit flip at any body/header position, truncation, cut, duplicate-and-alter, injection at any position) plus verbatim replay; own: a key-holding endpoint sends well-encrypted packages with wrong inner signature (4 ways), no Anything, unknown type, junk, malformed value, other key, raw; non-trivial = at least one tampering op / bad item; distinct = distinct case line",
+		Rule: "hist: two real nodes through a recording proxy over SUCCESSIVE connections (cuts, restarts of either node), every recorded frame of every earlier connection injected into later ones in both directions and reflected; mitm: real node → byte-level proxy → real node, 1..12 messages of 4 types and sizes 1 B..~1 MiB, every catalogue entry (bit flip at any body/header position, truncation, cut, duplicate-and-alter, injection at any position) plus verbatim replay; own: a key-holding endpoint sends well-encrypted packages with wrong inner signature (4 ways), no Anything, unknown type, junk, malformed value, other key, raw; non-trivial = at least one tampering op / bad item; distinct = distinct case line",
 		Gen:  gen,
 		Exec: exec,
 	})
@@ -114,6 +114,10 @@ func exec(line string) (res h.Result) {
 		return execOwn(w[1])
 	case "race":
 		return execRace(h.Atoi(w[1]))
+	case "hist":
+		res = execHist(w[1])
+		res.Class, res.Nontrivial = histClass16(w[1])
+		return res
 	}
 	panic("bad case line")
 }
@@ -121,6 +125,9 @@ func exec(line string) (res h.Result) {
 func classOf(w []string) (string, bool) {
 	if w[0] == "race" {
 		return "race", true
+	}
+	if w[0] == "hist" {
+		return histClass16(w[1])
 	}
 	if w[0] == "own" {
 		bad := 0
@@ -266,11 +273,14 @@ type receiver struct {
 	node    p2p.P2PInterface
 	addr    string
 	replyTo map[int]bool // message indices this node answers with Reply (reflection of replies)
-	mu      sync.Mutex
-	got     []delivery
-	tick    chan struct{}
-	probe   chan struct{}
-	pOnce   sync.Once
+	// replyAll: answer every message, once per index (connection histories)
+	replyAll bool
+	replied  map[int]bool
+	mu       sync.Mutex
+	got      []delivery
+	tick     chan struct{}
+	probe    chan struct{}
+	pOnce    sync.Once
 }
 
 const probeMark = 1 << 40
@@ -295,7 +305,19 @@ func startReceiverAs(id string, lookup func([]byte) string, replyTo map[int]bool
 					continue
 				}
 				tt, idx := idxOf(m.Msg.Message)
-				if r.replyTo[idx] {
+				answer := r.replyTo[idx]
+				if r.replyAll {
+					r.mu.Lock()
+					if r.replied == nil {
+						r.replied = map[int]bool{}
+					}
+					if !r.replied[idx] {
+						r.replied[idx] = true
+						answer = true
+					}
+					r.mu.Unlock()
+				}
+				if answer {
 					go r.node.Reply(context.Background(), m.Sender, m.RequestNonce, &p2p.Pong{Count: uint64(idx)})
 				}
 				raw, _ := proto.Marshal(m.Msg.Message)
@@ -993,6 +1015,8 @@ func gen(tier string, rng *h.Rng, emit func(string)) {
 		}
 		return ms
 	}
+	// successive connections with record-and-replay across them
+	genHist(tier, h.NewRng(rng.U64()), emit)
 	// honest transport
 	emit("mitm 0:1:1 -")
 	emit("mitm 0:1:1,1:1:2,2:1:3,3:1:4,2:17:5,3:4096:6,0:1:7,1:1:8 -")
